@@ -298,10 +298,24 @@ def andor_family():
     return [a + ["&"] + b + ["|"] + c + ["&"] + d for a, b, c, d in itertools.product(lits, repeat=4)]
 
 
+def xorpair_family():
+    """(l1 ^ l2) op (l3 ^ l4) and ~((l1 ^ l2) op l3) over the literals of a, b (op in &, |)"""
+    lits = [["a"], ["b"], ["~", "a"], ["~", "b"]]
+    out = []
+    for x, y, z, w in itertools.product(lits, repeat=4):
+        for op in ("&", "|"):
+            out.append(["("] + x + ["^"] + y + [")", op, "("] + z + ["^"] + w + [")"])
+    for x, y, z in itertools.product(lits, repeat=3):
+        for op in ("&", "|"):
+            out.append(["~", "(", "("] + x + ["^"] + y + [")", op] + z + [")"])
+    return out
+
+
 def full_family():
     """the deterministic input family of C20: every in-language token string up to 5 tokens over {p,q,r,true,false,~,&,|,^,(,)},
-    the 256 xor shapes x ^ (y op z) / (y op z) ^ x over p, q, ~p, ~q, and the 1296 disjunctions of two conjunctions of literals of p, q, r"""
-    return well_formed_upto(5) + xor_family() + andor_family()
+    the 256 xor shapes x ^ (y op z) / (y op z) ^ x over p, q, ~p, ~q, the 1296 disjunctions of two conjunctions of literals of p, q, r, and the 640
+    conjunctions / disjunctions of two xors of literals of a, b (and their negated forms)"""
+    return well_formed_upto(5) + xor_family() + andor_family() + xorpair_family()
 
 
 NAME_SETS = [["p", "q", "r"], ["foo", "Bar", "a"], ["q", "pq", "p", "Z"], ["b", "a", "ab", "B"]]
@@ -327,7 +341,8 @@ def expression_space(payload, for_search=False):
     # the operand shapes of the xor rules (x ^ (y op z) and mirrored), where the optimizer's known findings live
     fam = xor_family()
     ao = andor_family()
-    picked = (fam + ao) if thorough else (rng.sample(fam, 60) + rng.sample(ao, 160))
+    xp = xorpair_family()
+    picked = (fam + ao + xp) if thorough else (rng.sample(fam, 60) + rng.sample(ao, 160) + rng.sample(xp, 90))
     good += [(ts, spaced(ts)) for ts in picked]
     family_keys |= {" ".join(ts) for ts in picked}
     bad = []
